@@ -663,11 +663,22 @@ func (s *Sim) Crash(node int) {
 		}
 	}
 	s.mu.Unlock()
-	s.Logf("CRASH node=%d victims=%d", node, len(victims))
+	sort.Slice(victims, func(i, j int) bool { return victims[i].ID < victims[j].ID })
+	var ids []string
+	for _, t := range victims {
+		ids = append(ids, t.ID+"@"+t.site)
+	}
+	s.Logf("CRASH node=%d victims=%d %s", node, len(victims), strings.Join(ids, ","))
 	for _, t := range victims {
 		s.release(t)
 	}
 }
+
+// Settle waits until every goroutine the scheduler context has just woken by a
+// raw operation (closing a channel, cancelling a context) has run to its next
+// park or durable block. Without it such goroutines race with whatever the
+// scheduler does next. Scheduler context only.
+func (s *Sim) Settle() { synctest.Wait() }
 
 func (s *Sim) release(t *Task) {
 	s.mu.Lock()
